@@ -1202,9 +1202,69 @@ def c03(m, o):
     return {"checks": checks, "violations": viol[:10]}
 
 
+def c15(m, o):
+    """metamorphic: differently presented builds of the same model give the same results, matched by identity"""
+    import impl
+    import transforms as TR
+    from fractions import Fraction
+    p = {k: float(Fraction(v)) for k, v in (o.get("params") or {}).items()}
+    viol, checks = [], 0
+    solver = o.get("solver", "euler")
+
+    def run(prog, key=None):
+        mm, err, why = impl.build(dict(prog, obs=[]))
+        if err is not None:
+            return None, "rejected at op %s: %s" % (err, why)
+        mm.run(p, solver=solver, jit=False)
+        out = np.asarray(mm.outputs, dtype=float)
+        ids = [(key or TR.comp_key)(str(c)) for c in mm.compartments]
+        return (mm, out, ids, {k: np.asarray(v, dtype=float) for k, v in mm.derived_outputs.items()}), None
+
+    ref, why = run(o["program"])
+    if ref is None:
+        return {"checks": 0, "violations": []}
+    _, out0, ids0, d0 = ref
+    if not np.isfinite(out0).all():
+        return {"checks": 0, "violations": []}
+    scale0 = 1 + np.abs(out0).max()
+
+    def compare(what, res, factor=1.0, tol=1e-9, derived=True, dkey=lambda k: k):
+        nonlocal checks
+        if res[0] is None:
+            viol.append("%s: %s" % (what, res[1]))
+            return
+        _, out, ids, d = res[0]
+        checks += 1
+        if sorted(ids, key=str) != sorted(ids0, key=str):
+            viol.append("%s: the compartments differ as sets: %s vs %s" % (what, ids[:4], ids0[:4]))
+            return
+        pos = {k: i for i, k in enumerate(ids)}
+        perm = [pos[k] for k in ids0]
+        if out.shape != out0.shape or np.abs(out[:, perm] - factor * out0).max() > tol * scale0 * max(1.0, factor):
+            viol.append("%s: outputs differ by %.6g (matched by compartment identity)" % (
+                what, np.abs(out[:, perm] - factor * out0).max() if out.shape == out0.shape else -1))
+        if derived:
+            for k, v in d0.items():
+                kk = dkey(k)
+                if kk not in d or np.abs(d[kk] - factor * v).max() > tol * (1 + np.abs(v).max()) * max(1.0, factor):
+                    viol.append("%s: derived output %s differs" % (what, k))
+
+    for name, prog2 in o["variants"]:
+        if name == "rename":
+            inv_c = lambda c: c[1:].upper()
+            inv_s = lambda s_: s_ if s_ == "age" else s_[1:]
+            inv_st = lambda strat, st: st if strat == "age" else st[:-1]
+            compare(name, run(prog2, key=lambda s_: TR.comp_key(s_, inv_c, inv_s, inv_st)))
+        elif name.startswith("scale"):
+            compare(name, run(prog2), factor=float(Fraction(o["scale"])), tol=1e-9, derived=o.get("derived_homogeneous", True))
+        else:
+            compare(name, run(prog2))
+    return {"checks": checks, "violations": viol[:10]}
+
+
 ORACLES = {"c01": c01, "c02": c02, "c18": c18}
 MODEL_ORACLES = {"c02_traj": c02_traj, "c13": c13, "c12": c12, "c12_dates": c12_dates,
-                 "c07": c07, "c07_closed": c07_closed, "c16": c16, "c14": c14, "c08": c08, "c09": c09, "c10": c10, "c04": c04, "c18_traj": c18_traj, "c06": c06, "c05": c05, "c03": c03}
+                 "c07": c07, "c07_closed": c07_closed, "c16": c16, "c14": c14, "c08": c08, "c09": c09, "c10": c10, "c04": c04, "c18_traj": c18_traj, "c06": c06, "c05": c05, "c03": c03, "c15": c15}
 
 
 def run_oracle(m, o):
